@@ -29,6 +29,6 @@ static void prop_object(Tape &t, Ctx &c) {
     };
     object_export_case<DS>(t, c, "deflated_solver::get_params", fix, [](const DS &s, ptree &out) { s.get_params(out); });
 }
-static std::vector<Prop> props() { return {Prop("probe_deflated_params", prop_params, 600, 6000, 100, 8, {1}, 1, 2), Prop("probe_deflated_object", prop_object, 150, 1500, 100, 30, {1}, 1, 2)}; }
+static std::vector<Prop> props() { return {Prop("probe_deflated_params", prop_params, 600, 6000, 100, 8, {1}, 1, 2), Prop("probe_deflated_object", prop_object, 150, 1500, 100, 4, {1}, 1, 2)}; }
 static std::vector<Enum> enums() { return {}; }
 VF_MAIN(props(), enums())
